@@ -518,6 +518,23 @@ public:
 		, mSize(arraySize)
 	{ }
 
+	~CMsgPackReadBinaryScope()
+	{
+		try
+		{
+			// Skip bytes that was not read (e.g. scope closed before the end of binary array), the parent scope continues after it
+			for (; mIndex < mSize; ++mIndex)
+			{
+				mMsgPackReader->ReadBinary();
+			}
+		}
+		catch (...)
+		{
+			// A destructor must not throw (e.g. truncated input), the error will be reported by `Finalize()` of the root scope
+			GetContext().DeferError(std::current_exception());
+		}
+	}
+
 	/// <summary>
 	/// Gets the current path in MsgPack.
 	/// </summary>
